@@ -1,4 +1,7 @@
 import LinOp.C16.Proofs
+import LinOp.C16.ProofsWeak
+import LinOp.C16.Skeleton
+import LinOp.C16.ProofsPSD
 import LinOp.Generated.C16Consts
 import Mathlib.Data.Matrix.Mul
 import Mathlib.Data.Matrix.Diagonal
@@ -447,6 +450,169 @@ theorem psc_factor_of_perturbed_matrix {R : Type} [CommRing R] {n : Nat}
     rw [← addDiag_eq_add_smul_one]
     exact hfac _ hs
 
+/-! ### The weak `cholesky_ex` contract: `info = 0 ⇒ L Lᵀ = A′ and L finite` (no ⇔ with positive definiteness)
+
+Which theorem needs which part of the contract of `torch.linalg.cholesky_ex`:
+* NOTHING about `cholesky_ex` (any function `M → F × Nat`): `psc_pd_exact`, `psc_nan_raises`, `psc_minimal_try`, `psc_all_fail_raises(_partial)`,
+  `psc_warns_iff_jitter`, `psc_result_is_factor_of_work`, `psc_upper`, `psc_out`, `psc_input_unchanged`, `psc_trace_mode`, `op_route_*`,
+  `psc_cumulative`, `psc_only_failed`, `psc_frozen_after_success`, `psc_minimal_i`, `psc_work_minimal`, `psc_fail_every_try`.
+* WEAK contract only (`info = 0 ⇒ IsFactor L W ∧ Finite L`): `psc_weak_contract`, `psc_weak_contract_matrix`, `psc_weak_contract_psd`,
+  `psc_no_nan_out`, `psc_factor_of_perturbed_matrix`.
+* COMPLETENESS only (`PD W ⇒ info = 0`): `psc_pd_exact_of_complete` (PD input ⇒ exact factor), `psc_minimal_of_complete` (the exponent is
+  minimal in terms of positive definiteness), `psc_notpsd_genuine`, `psc_no_notpsd_if_repairable`.
+* SOUNDNESS only (`info = 0 ⇒ PD W`): `psc_work_pd_of_sound` (the perturbed matrix that is factorised is PD).
+* the full ⇔: only the combined statement `psc_factor_of_perturbed`.
+`psc_nan_raises_contract` needs "NaN member ⇒ info ≠ 0". -/
+
+/-- **Whenever the function returns, every member of the final `Aprime` is a minimal perturbation of its input member**:
+`cholesky_ex` succeeds on it, and it is the input member itself (which never failed) or the input member plus
+`jitter·base^j` for the least `j < max_tries` at which `cholesky_ex` succeeds.  No assumption on `cholesky_ex`. -/
+theorem psc_work_minimal (hl : Lawful ops) (ht : env.traceMode = false) (ls : List F)
+    (h : (psdSafeCholesky ops c env args A).result = .ok ls) :
+    List.Forall₂ (MinimalPerturbation ops c.base (effJitter env args) (effMaxTries env args)) A
+      (psdSafeCholesky ops c env args A).work := by
+  rw [wrapper_result] at h
+  rw [wrapper_work]
+  cases hr : (psdSafeCholeskyCore ops c env args A).result with
+  | error e => simp [hr, Except.map] at h
+  | ok l0 => exact core_ok_work_minimal ops c env args A hl ht l0 hr
+
+/-- **Main theorem under the weak contract**: assume only that `cholesky_ex` returning `info = 0` on `W` gives a factor of `W`
+that is finite.  Then whenever `psd_safe_cholesky` returns, the `b`-th returned factor is (the transpose, if `upper`, of) a finite
+factor of a matrix `W_b` that is a minimal perturbation of `A_b`: `A_b` itself if it never failed, else `A_b + jitter·base^j·I`
+for the least `j < max_tries` at which `cholesky_ex` succeeds.  Every batch, history, `max_tries`, jitter. -/
+theorem psc_weak_contract (hl : Lawful ops) (ht : env.traceMode = false) (IsFactor : F → M → Prop) (Finite : F → Prop)
+    (hw : ∀ w, (ops.cholEx w).2 = 0 → IsFactor (ops.cholEx w).1 w ∧ Finite (ops.cholEx w).1)
+    (ls : List F) (h : (psdSafeCholesky ops c env args A).result = .ok ls) :
+    List.Forall₂ (fun a l => ∃ w, MinimalPerturbation ops c.base (effJitter env args) (effMaxTries env args) a w ∧
+        l = orient ops args.upper (ops.cholEx w).1 ∧ IsFactor (ops.cholEx w).1 w ∧ Finite (ops.cholEx w).1) A ls := by
+  obtain ⟨h1, _⟩ := psc_result_is_factor_of_work ops c env args A ht ls h
+  rw [h1, List.forall₂_map_right_iff]
+  exact (psc_work_minimal ops c env args A hl ht ls h).imp fun a w hm => ⟨w, hm, rfl, hw w hm.1⟩
+
+/-- **Weak contract, matrices of any size `n`**: with `info = 0 ⇒ L Lᵀ = W ∧ Finite L`, every returned factor `l` is finite and
+`l lᵀ = A_b + t·I` (`lᵀ l` if `upper`) with `t = 0` or `t = jitter·base^j`, `j < max_tries`. -/
+theorem psc_weak_contract_matrix {R : Type} [CommRing R] {n : Nat}
+    (cholEx : Mat R n n → Matrix (Fin n) (Fin n) R × Nat) (isNan : R → Bool) (Finite : Matrix (Fin n) (Fin n) R → Prop)
+    (hfac : ∀ w, (cholEx w).2 = 0 → (cholEx w).1 * (cholEx w).1.transpose = Matrix.of w ∧ Finite (cholEx w).1)
+    (hfinT : ∀ L, Finite L → Finite L.transpose)
+    (envR : Env R) (argsR : Args R) (As : List (Mat R n n)) (ht : envR.traceMode = false) (ls : List (Matrix (Fin n) (Fin n) R))
+    (h : (psdSafeCholesky (matOps cholEx isNan Matrix.transpose) c envR argsR As).result = .ok ls) :
+    List.Forall₂ (fun a l => Finite l ∧ ∃ t : R, (t = 0 ∨ ∃ j, j < effMaxTries envR argsR ∧ t = effJitter envR argsR * (c.base : R) ^ j) ∧
+        (if argsR.upper then l.transpose * l else l * l.transpose) = Matrix.of a + t • (1 : Matrix (Fin n) (Fin n) R)) As ls := by
+  have := psc_weak_contract (matOps cholEx isNan Matrix.transpose) c envR argsR As (matOps_lawful cholEx isNan _) ht
+    (fun L w => L * L.transpose = Matrix.of w) Finite hfac ls h
+  refine this.imp fun a l ⟨w, hm, hl, hf, hfin⟩ => ?_
+  have hor : Finite l ∧ (if argsR.upper then l.transpose * l else l * l.transpose) = Matrix.of w := by
+    subst hl
+    unfold orient
+    cases argsR.upper
+    · exact ⟨hfin, hf⟩
+    · refine ⟨hfinT _ hfin, ?_⟩
+      simpa [matOps, Matrix.transpose_transpose] using hf
+  refine ⟨hor.1, ?_⟩
+  rcases hm.2 with ⟨_, rfl⟩ | ⟨_, j, hj, _, rfl⟩
+  · exact ⟨0, Or.inl rfl, by rw [hor.2]; simp⟩
+  · refine ⟨_, Or.inr ⟨j, hj, rfl⟩, ?_⟩
+    rw [hor.2]
+    exact addDiag_eq_add_smul_one a _
+
+/-- **The matrix that is factorised is positive semidefinite — derived from the weak contract, not assumed** (ordered scalars with
+trivial star, e.g. ℝ or ℚ): with only `info = 0 ⇒ L Lᵀ = W`, whenever the function returns, every member satisfies
+`A_b + t·I` PSD with `t = 0` or `t = jitter·base^j`, `j < max_tries` — so a returned factor certifies semidefiniteness of the
+(perturbed) member without the soundness half of the `cholesky_ex` contract. -/
+theorem psc_weak_contract_psd {K : Type} [CommRing K] [PartialOrder K] [StarRing K] [StarOrderedRing K] [TrivialStar K] {n : Nat}
+    (cholEx : Mat K n n → Matrix (Fin n) (Fin n) K × Nat) (isNan : K → Bool)
+    (hfac : ∀ w, (cholEx w).2 = 0 → (cholEx w).1 * (cholEx w).1.transpose = Matrix.of w)
+    (envR : Env K) (argsR : Args K) (As : List (Mat K n n)) (ht : envR.traceMode = false) (ls : List (Matrix (Fin n) (Fin n) K))
+    (h : (psdSafeCholesky (matOps cholEx isNan Matrix.transpose) c envR argsR As).result = .ok ls) :
+    List.Forall₂ (fun a _ => ∃ t : K, (t = 0 ∨ ∃ j, j < effMaxTries envR argsR ∧ t = effJitter envR argsR * (c.base : K) ^ j) ∧
+        (Matrix.of a + t • (1 : Matrix (Fin n) (Fin n) K)).PosSemidef) As ls := by
+  have := psc_weak_contract_matrix c cholEx isNan (fun _ => True) (fun w hw => ⟨hfac w hw, trivial⟩) (fun _ _ => trivial)
+    envR argsR As ht ls h
+  refine this.imp fun a l ⟨_, t, ht', he⟩ => ⟨t, ht', ?_⟩
+  rw [← he]
+  split
+  · have := posSemidef_self_mul_transpose l.transpose
+    rwa [Matrix.transpose_transpose] at this
+  · exact posSemidef_self_mul_transpose l
+
+example : ∃ (_ : CommRing ℝ) (_ : PartialOrder ℝ) (_ : StarRing ℝ) (_ : StarOrderedRing ℝ), TrivialStar ℝ := ⟨_, _, _, inferInstance, inferInstance⟩
+
+/-- **Loud failure is justified, no assumption on `cholesky_ex`**: whenever the function raises `NotPSDError` (or today's
+`UnboundLocalError`), then for EVERY try `j < max_tries` some member failed without jitter and with each of
+`jitter·base^0 … jitter·base^j` — in particular (with `j = max_tries − 1`) with the largest allowed jitter. -/
+theorem psc_fail_every_try (hl : Lawful ops) (ht : env.traceMode = false) (e : Err) (he : e ≠ .nanError)
+    (h : (psdSafeCholesky ops c env args A).result = .error e) :
+    ∀ j, j < effMaxTries env args → ∃ a ∈ A, 0 < (ops.cholEx a).2 ∧
+      ∀ i, i ≤ j → 0 < (ops.cholEx (ops.addDiag a (effJitter env args * (c.base : α) ^ i))).2 := by
+  rw [wrapper_result] at h
+  cases hr : (psdSafeCholeskyCore ops c env args A).result with
+  | ok l0 => simp [hr, Except.map] at h
+  | error e' =>
+    have : e' = e := by simpa [hr, Except.map] using h
+    subst this
+    exact core_fail_every_try ops c env args A hl ht e' he hr
+
+/-- **Completeness (`PD ⇒ info = 0`) is all that "PD input ⇒ exact factor" needs.** -/
+theorem psc_pd_exact_of_complete (PD : M → Prop) (hcomp : ∀ w, PD w → (ops.cholEx w).2 = 0) (hpd : ∀ a ∈ A, PD a) :
+    (psdSafeCholesky ops c env args A).result = .ok (A.map fun a => orient ops args.upper (ops.cholEx a).1) ∧
+    (psdSafeCholesky ops c env args A).calls = 1 ∧ (psdSafeCholesky ops c env args A).warns = [] ∧
+    (psdSafeCholesky ops c env args A).work = A ∧ (psdSafeCholesky ops c env args A).input = A :=
+  psc_pd_exact ops c env args A fun a ha => hcomp a (hpd a ha)
+
+/-- **Completeness is all that minimality in terms of positive definiteness needs**: whenever the function returns, each member
+of `Aprime` is the input member, or the input member is not PD and carries `jitter·base^j` where no smaller exponent makes it PD. -/
+theorem psc_minimal_of_complete (hl : Lawful ops) (ht : env.traceMode = false) (PD : M → Prop)
+    (hcomp : ∀ w, PD w → (ops.cholEx w).2 = 0) (ls : List F) (h : (psdSafeCholesky ops c env args A).result = .ok ls) :
+    List.Forall₂ (fun a w => w = a ∨ (¬ PD a ∧ ∃ j, j < effMaxTries env args ∧
+        (∀ i, i < j → ¬ PD (ops.addDiag a (effJitter env args * (c.base : α) ^ i))) ∧
+        w = ops.addDiag a (effJitter env args * (c.base : α) ^ j))) A (psdSafeCholesky ops c env args A).work := by
+  refine (psc_work_minimal ops c env args A hl ht ls h).imp fun a w hm => ?_
+  rcases hm.2 with ⟨_, rfl⟩ | ⟨h0, j, hj, hf, rfl⟩
+  · exact Or.inl rfl
+  · refine Or.inr ⟨fun hp => by have := hcomp a hp; omega, j, hj, fun i hi hp => ?_, rfl⟩
+    have := hcomp _ hp
+    have := hf i hi
+    omega
+
+/-- **Soundness (`info = 0 ⇒ PD`) is all that "the factorised perturbed matrix is PD" needs.** -/
+theorem psc_work_pd_of_sound (ht : env.traceMode = false) (PD : M → Prop)
+    (hsound : ∀ w, (ops.cholEx w).2 = 0 → PD w) (ls : List F) (h : (psdSafeCholesky ops c env args A).result = .ok ls) :
+    ∀ w ∈ (psdSafeCholesky ops c env args A).work, PD w :=
+  fun w hw => hsound w ((psc_result_is_factor_of_work ops c env args A ht ls h).2 w hw)
+
+/-- **`NotPSDError` is genuine (completeness only)**: if it is raised, then for every try `j < max_tries` some member is not PD and
+stays not PD with each of the jitters `jitter·base^0 … jitter·base^j`. -/
+theorem psc_notpsd_genuine (hl : Lawful ops) (ht : env.traceMode = false) (PD : M → Prop)
+    (hcomp : ∀ w, PD w → (ops.cholEx w).2 = 0) (h : (psdSafeCholesky ops c env args A).result = .error .notPSDError) :
+    ∀ j, j < effMaxTries env args → ∃ a ∈ A, ¬ PD a ∧ ∀ i, i ≤ j → ¬ PD (ops.addDiag a (effJitter env args * (c.base : α) ^ i)) := by
+  intro j hj
+  obtain ⟨a, ha, h0, hf⟩ := psc_fail_every_try ops c env args A hl ht _ (by decide) h j hj
+  exact ⟨a, ha, fun hp => by have := hcomp a hp; omega, fun i hi hp => by have := hcomp _ hp; have := hf i hi; omega⟩
+
+/-- **No spurious `NotPSDError` (completeness only)**: if some allowed jitter level `jitter·base^j`, `j < max_tries`, makes every member
+PD that is not PD already, the function does not raise `NotPSDError`. -/
+theorem psc_no_notpsd_if_repairable (hl : Lawful ops) (ht : env.traceMode = false) (PD : M → Prop)
+    (hcomp : ∀ w, PD w → (ops.cholEx w).2 = 0) (j : Nat) (hj : j < effMaxTries env args)
+    (hrep : ∀ a ∈ A, PD a ∨ PD (ops.addDiag a (effJitter env args * (c.base : α) ^ j))) :
+    (psdSafeCholesky ops c env args A).result ≠ .error .notPSDError := by
+  intro h
+  obtain ⟨a, ha, hn, hf⟩ := psc_notpsd_genuine ops c env args A hl ht PD hcomp h j hj
+  rcases hrep a ha with hp | hp
+  · exact hn hp
+  · exact hf j (Nat.le_refl _) hp
+
+/-- The weak contract (and completeness, soundness) is satisfiable by a non-trivial instance: 1×1 integer "matrices",
+`PD a := a > 0`, factor = the matrix. -/
+example :
+    let ops' : Ops Int Int Int := { cholEx := fun a => (a, if a > 0 then 0 else 1), hasNan := fun _ => false, addDiag := fun a x => a + x, transposeF := id }
+    (∀ w, (ops'.cholEx w).2 = 0 → (ops'.cholEx w).1 = w ∧ True) ∧ (∀ w, w > 0 → (ops'.cholEx w).2 = 0) ∧
+    (∀ w, (ops'.cholEx w).2 = 0 → w > 0) := by
+  refine ⟨fun w _ => ⟨rfl, trivial⟩, fun w h => by simp [h], fun w h => ?_⟩
+  by_contra hn
+  simp [hn] at h
+
 /-! ### Obligations on the constants and structure extracted from today's source -/
 
 /-- The schedule in the source is `jitter * 10**i`, the increment is the masked difference to the previous try
@@ -493,6 +659,63 @@ theorem gen_no_shortcut :
     C16.opShortcutTest = "evaluated_mat.size(-1) == 1" ∧
     C16.opShortcutReturn = "TriangularLinearOperator(evaluated_mat.clamp_min(0.0).sqrt())" ∧
     C16.opPscCall = "psd_safe_cholesky(evaluated_mat, upper=upper)" ∧ C16.opCholeskyCallsLower = true := by decide +kernel
+
+/-! ### The statement skeleton of the two function bodies (AST-derived, `LinOp/C16/Skeleton.lean`) -/
+
+/-- The body of `_psd_safe_cholesky` in today's source consists — in this order, with nothing else except effect-free
+logging — of: `out` packing, first `cholesky_ex` on the input, exit test (trace mode or no info), NaN scan of the input, `NanError`
+raise, the two defaults, clone, `jitter_prev` initialisation, the loop over `range(max_tries)` with body schedule / masked increment /
+in-place write on the clone's diagonal / `jitter_prev` update / `NumericalWarning` / `cholesky_ex` on the clone / exit test, and the
+final `NotPSDError` raise.  This is the statement order the model `psdSafeCholeskyCore` mirrors. -/
+theorem gen_skeleton_core : C16.coreSkeleton = expectedCore C16.jitterNewBound := by decide +kernel
+
+/-- The body of `psd_safe_cholesky`: call of the core forwarding `A, out, jitter, max_tries`; under `if upper:` the in-place transpose
+of `out` if given, else the transpose of the result; `return` of the result.  Mirrored by `psdSafeCholesky`. -/
+theorem gen_skeleton_wrapper : C16.wrapperSkeleton = expectedWrapper := by decide +kernel
+
+theorem splitSk_expectedCore (b : Bool) :
+    splitSk (expectedCore b) =
+      (["outpack", "chol(input)", "return-if(trace|noinfo)", "nanscan(input)", "raise-if(nan):NanError", "default(jitter)",
+        "default(max_tries)", "clone", if b then "init(jitter_new,jitter_prev=0)" else "init(jitter_prev=0)"],
+       ["for(range(max_tries))"],
+       ["sched", "incr(masked)", "write(clone.diagonal)", "prev", "warn:NumericalWarning", "chol(clone)", "return-if(noinfo)"],
+       ["raise:NotPSDError"]) := by
+  cases b <;> decide +kernel
+
+/-- **The control flow of the pinned skeleton agrees with the model's counters, for every number of tries**: the statement sequence
+executed when the loop runs `k` times (returning from inside, or falling through to the raise) contains exactly one first attempt
+on the input, one clone, `k` schedule/increment/write steps, `k` warnings and `k` retries on the clone — i.e. `k + 1` `cholesky_ex`
+calls and `k` warnings, as `Outcome.calls` / `Outcome.warns` of the model (`psc_minimal_try`, `psc_all_fail_raises_partial`,
+`psc_warns_iff_jitter`) — and the final raise is reached only in the fall-through case. -/
+theorem skeleton_trace_counts (b : Bool) (k : Nat) (o : String) (ho : o = "ok" ∨ o = "fail") :
+    (roleTrace (expectedCore b) o k).count "chol(input)" = 1 ∧ (roleTrace (expectedCore b) o k).count "clone" = 1 ∧
+    (roleTrace (expectedCore b) o k).count "chol(clone)" = k ∧ (roleTrace (expectedCore b) o k).count "warn:NumericalWarning" = k ∧
+    (roleTrace (expectedCore b) o k).count "write(clone.diagonal)" = k ∧ (roleTrace (expectedCore b) o k).count "incr(masked)" = k ∧
+    (roleTrace (expectedCore b) o k).count "raise:NotPSDError" = (if o = "fail" then 1 else 0) := by
+  have hrep : ∀ (x : String) (xs : List String) (k : Nat), (rep k xs).count x = k * xs.count x := by
+    intro x xs k
+    induction k with
+    | zero => simp [rep]
+    | succ k ih => simp [rep, List.count_append, ih, Nat.succ_mul, Nat.add_comm]
+  unfold roleTrace
+  rw [splitSk_expectedCore]
+  rcases ho with rfl | rfl <;> cases b <;>
+    simp [assemble, List.count_append, hrep, List.count_cons, List.count_nil]
+
+/-- Early exits of the skeleton: returning at the first exit test executes no NaN scan, clone or loop statement; the NaN raise
+happens after exactly one `cholesky_ex` and before the clone. -/
+theorem skeleton_trace_early (b : Bool) (k : Nat) :
+    roleTrace (expectedCore b) "first" k = ["outpack", "chol(input)", "return-if(trace|noinfo)"] ∧
+    roleTrace (expectedCore b) "nan" k = ["outpack", "chol(input)", "return-if(trace|noinfo)", "nanscan(input)", "raise-if(nan):NanError"] := by
+  have h1 : ∀ (p : List String × List String × List String × List String) (k : Nat),
+      assemble p "first" k = upto p.1 (·.startsWith "return-if(") := by
+    intro ⟨a, b, c, d⟩ k; simp [assemble]
+  have h2 : ∀ (p : List String × List String × List String × List String) (k : Nat),
+      assemble p "nan" k = upto p.1 (·.startsWith "raise-if(nan)") := by
+    intro ⟨a, b, c, d⟩ k; simp [assemble]
+  unfold roleTrace
+  rw [splitSk_expectedCore, h1, h2]
+  cases b <;> exact ⟨by decide +kernel, by decide +kernel⟩
 
 /-- The input-immutability theorem applies to today's source. -/
 theorem psc_input_unchanged_generated (base : Nat) :
